@@ -7,6 +7,7 @@ threads and processes) and returns a *term string* spelling out which function g
 """
 from __future__ import annotations
 
+import dataclasses
 import hashlib
 import inspect
 import json
@@ -67,6 +68,18 @@ def new_log(dirpath, name="calls"):
 
 
 # ---------------------------------------------------------------- rendering
+@dataclasses.dataclass(frozen=True)
+class Tag:
+    """An argument value that is an instance of a user dataclass (prints like the plain string it wraps)."""
+
+    name: str
+
+    def __str__(self):
+        return self.name
+
+    __repr__ = __str__
+
+
 def render(v):
     """Canonical rendering of a value: nested brackets for arrays / sequences, '<MASKED>' for
     masked elements, str() for leaves."""
